@@ -103,6 +103,10 @@ def gen():
                 conflicts.append((f"{pn}|clear-view-then-reuse", f"    let mut v = mk();\n    {create}\n    t.clear();\n    {use}"))
             # the borrow must not outlive the view's own borrow of the vector
             conflicts.append((f"{pn}|drop-view-mutate-source", f"    let mut v = mk();\n    {create}\n    drop(t);\n    v.push(W::new(String::from(\"z\")));\n    {use}"))
+    # an exclusive handle must not be duplicable
+    for pn in ("at_mut", "get_mut", "iter_mut", "pop", "remove", "swap_remove", "drain", "splice", "drained_element", "downcast_mut"):
+        create, use, _e, _o, _t = PRODUCERS[pn]
+        conflicts.append((f"{pn}|clone-handle", f"    let mut v = mk();\n    {create}\n    let mut h2 = h.clone();\n    {use}\n    {use.replace('h.', 'h2.')}"))
     # two simultaneous mutable paths to one element
     two = {
         "typed.at_mut x2": "let mut t = v.downcast_mut::<String>().unwrap();\n    let a = t.at_mut(0);\n    let b = t.at_mut(0);\n    a.push('1');\n    b.push('2');",
